@@ -1,4 +1,5 @@
 import IwModel.Lemmas.Kv
+import IwModel.Lemmas.KvBridge
 /-! # C02 — cursors enumerate and address records in key order
 
 Property theorems only; helper lemmas live in `IwModel/Lemmas/Kv.lean`. The cursor machine is
@@ -186,6 +187,151 @@ theorem position_local (d d' : Db K V) (hn : d.nodes = d'.nodes) (i j : Nat) (s 
 
 end
 
+
+/-! ### 8. the bridge to C19: the cursor theorems for the comparator the store uses
+
+§6/§7 assume `StrictTotal gt`; C19 gives it for `_cmp_keys` on the valid keys of each mode
+(`KvApi.gtE_strictTotalOn`). The `…_on` theorems are the predicate-relative forms (state and lookup
+key within `P`), the `store_…` theorems instantiate them — no comparator hypothesis left. -/
+
+section
+variable {K V : Type} {gt : K → K → Bool} {P : K → Prop}
+
+/-- `seek_eq_spec` for a comparator that is a strict total order on the keys satisfying `P` -/
+theorem seek_eq_spec_on (st : StrictTotalOn P gt) (d : Db K V) (inv : NodeInv gt d.nodes)
+    (hd : KeysOn P (flatten d.nodes)) (k : K) (hk : P k) (p : CPos) :
+    let r := curSeek gt d k false p
+    r.2 = (specGet gt (flatten d.nodes) k).isSome ∧
+    (∀ v, specGet gt (flatten d.nodes) k = some v → curRec d r.1 = some (k, v)) ∧
+    (specGet gt (flatten d.nodes) k = none → r.1 = clearSkip p) := by
+  obtain ⟨d', rfl⟩ := exists_lift_db d hd
+  have h := seek_eq_spec st.lift d' ((nodeInv_mapK _ gt d'.nodes).1 inv) ⟨k, hk⟩ p
+  have e : k = Subtype.val (⟨k, hk⟩ : {k // P k}) := rfl
+  dsimp only at h ⊢
+  rw [e, curSeek_mapK, Db.mapK_nodes, flatten_mapK, specGet_mapRecs]
+  refine ⟨h.1, fun v hv => ?_, h.2.2⟩
+  rw [curRec_mapK, h.2.1 v hv]; rfl
+
+/-- `seek_ge_spec` for a comparator that is a strict total order on the keys satisfying `P` -/
+theorem seek_ge_spec_on (st : StrictTotalOn P gt) (d : Db K V) (inv : NodeInv gt d.nodes)
+    (hd : KeysOn P (flatten d.nodes)) (k : K) (hk : P k) (p : CPos) :
+    let r := curSeek gt d k true p
+    r.2 = (flatten d.nodes).any (fun x => !gt k x.1) ∧
+    (r.2 = true → curRec d r.1 = ((flatten d.nodes).filter (fun x => !gt k x.1)).getLast?) ∧
+    (r.2 = false → r.1 = clearSkip p) := by
+  obtain ⟨d', rfl⟩ := exists_lift_db d hd
+  have h := seek_ge_spec st.lift d' ((nodeInv_mapK _ gt d'.nodes).1 inv) ⟨k, hk⟩ p
+  have e : k = Subtype.val (⟨k, hk⟩ : {k // P k}) := rfl
+  dsimp only at h ⊢
+  rw [e, curSeek_mapK, Db.mapK_nodes, flatten_mapK, any_mapRecs, filter_mapRecs, getLast?_mapRecs]
+  refine ⟨h.1, fun hr => ?_, h.2.2⟩
+  rw [curRec_mapK, h.2.1 hr]
+
+/-- `cursor_set_spec` / `cursor_del_spec` for a comparator that is a strict total order on `P` -/
+theorem cursor_write_spec_on (st : StrictTotalOn P gt) (d : Db K V) (inv : NodeInv gt d.nodes)
+    (hd : KeysOn P (flatten d.nodes)) (p : CPos) (v : V) {k : K} {ov : V} (h : curRec d p = some (k, ov)) :
+    (flatten (curSet d p v).nodes = specPut gt (flatten d.nodes) k v ∧ NodeInv gt (curSet d p v).nodes ∧
+      curRec (curSet d p v) p = some (k, v)) ∧
+    (flatten (curDel d p).nodes = specDel gt (flatten d.nodes) k ∧ NodeInv gt (curDel d p).nodes) := by
+  obtain ⟨d', rfl⟩ := exists_lift_db d hd
+  rw [curRec_mapK] at h
+  cases hr : curRec d' p with
+  | none => rw [hr] at h; cases h
+  | some x =>
+    obtain ⟨k', ov'⟩ := x
+    rw [hr] at h
+    simp only [Option.map_some, Option.some.injEq, Prod.mk.injEq] at h
+    obtain ⟨rfl, rfl⟩ := h
+    have inv' := (nodeInv_mapK _ gt d'.nodes).1 inv
+    have hs := cursor_set_spec st.lift d' inv' p v hr
+    have hdl := cursor_del_spec st.lift d' inv' p hr
+    rw [curSet_mapK, curDel_mapK, curRec_mapK]
+    simp only [Db.mapK_nodes, flatten_mapK, specPut_mapRecs, specDel_mapRecs, nodeInv_mapK]
+    exact ⟨⟨by rw [hs.1], hs.2.1, by rw [hs.2.2]; rfl⟩, by rw [hdl.1], hdl.2⟩
+
+end
+
+/-- After ANY history of put / put-no-overwrite / delete / get over valid effective keys (any flags
+    word, any level draws) from the empty database: a NEXT scan from before-first yields exactly the
+    contents of the ordered reference map, in its order, then not-found; a PREV scan from after-last
+    yields the reverse; and that order is strictly descending under the store's comparator. -/
+theorem store_scan (flags : Nat) (ops : List (Op KvApi.EKey Bytes)) (h : OpsOn (KvApi.Valid flags) ops) :
+    let d := (runNode (KvApi.gtE flags) ⟨[], []⟩ ops).1
+    let m := (runSpec (KvApi.gtE flags) [] ops).1
+    scan d (curNext d) (m.length + 1) .head = (m.map some, true) ∧
+    scan d (curPrev d) (m.length + 1) .tail = (m.reverse.map some, true) ∧
+    Desc (KvApi.gtE flags) m := by
+  have r := run_refines_on (KvApi.gtE_strictTotalOn flags) ops h ⟨[], []⟩ nodeInv_nil keysOn_nil
+  have e : flatten (runNode (KvApi.gtE flags) ⟨[], []⟩ ops).1.nodes = (runSpec (KvApi.gtE flags) [] ops).1 := r.2.1
+  have s1 := scan_next _ r.2.2.1
+  have s2 := scan_prev _ r.2.2.1
+  rw [e] at s1 s2
+  exact ⟨s1.1, s2, s1.2⟩
+
+/-- byte-string keys without compound part (`flags = 0`), keys `(b, 0)` -/
+theorem plain_scan_next (ops : List (Op KvApi.EKey Bytes)) (h : OpsOn KvApi.PlainKey ops) :
+    let d := (runNode (KvApi.gtE 0) ⟨[], []⟩ ops).1
+    let m := (runSpec (KvApi.gtE 0) [] ops).1
+    scan d (curNext d) (m.length + 1) .head = (m.map some, true) ∧
+    scan d (curPrev d) (m.length + 1) .tail = (m.reverse.map some, true) ∧ Desc (KvApi.gtE 0) m :=
+  store_scan 0 ops (KvApi.opsOn_mono KvApi.valid_plain h)
+
+/-- compound byte-string keys: every history -/
+theorem compound_scan_next (ops : List (Op KvApi.EKey Bytes)) :
+    let d := (runNode (KvApi.gtE Gen.IWDB_COMPOUND_KEYS) ⟨[], []⟩ ops).1
+    let m := (runSpec (KvApi.gtE Gen.IWDB_COMPOUND_KEYS) [] ops).1
+    scan d (curNext d) (m.length + 1) .head = (m.map some, true) ∧
+    scan d (curPrev d) (m.length + 1) .tail = (m.reverse.map some, true) ∧
+    Desc (KvApi.gtE Gen.IWDB_COMPOUND_KEYS) m :=
+  store_scan Gen.IWDB_COMPOUND_KEYS ops (fun op _ => KvApi.valid_compound op.key)
+
+/-- integer keys, both layouts -/
+theorem vnum_scan_next (compound : Bool) (ops : List (Op KvApi.EKey Bytes)) (h : OpsOn (KvApi.VnumKey compound) ops) :
+    let d := (runNode (KvApi.gtE (KvApi.vnumFlags compound)) ⟨[], []⟩ ops).1
+    let m := (runSpec (KvApi.gtE (KvApi.vnumFlags compound)) [] ops).1
+    scan d (curNext d) (m.length + 1) .head = (m.map some, true) ∧
+    scan d (curPrev d) (m.length + 1) .tail = (m.reverse.map some, true) ∧
+    Desc (KvApi.gtE (KvApi.vnumFlags compound)) m :=
+  store_scan _ ops (KvApi.opsOn_mono (KvApi.valid_vnum compound) h)
+
+/-- real-number keys, both layouts -/
+theorem real_scan_next (compound : Bool) (ops : List (Op KvApi.EKey Bytes)) (h : OpsOn (KvApi.RealKey compound) ops) :
+    let d := (runNode (KvApi.gtE (KvApi.realFlags compound)) ⟨[], []⟩ ops).1
+    let m := (runSpec (KvApi.gtE (KvApi.realFlags compound)) [] ops).1
+    scan d (curNext d) (m.length + 1) .head = (m.map some, true) ∧
+    scan d (curPrev d) (m.length + 1) .tail = (m.reverse.map some, true) ∧
+    Desc (KvApi.gtE (KvApi.realFlags compound)) m :=
+  store_scan _ ops (KvApi.opsOn_mono (KvApi.valid_real compound) h)
+
+/-- EQ seek under the store's comparator, any flags word: on a valid chain of valid keys (e.g. the
+    state after any history, `C01.store_refines_map`), for a valid lookup key -/
+theorem store_seek_eq (flags : Nat) (d : Db KvApi.EKey Bytes) (inv : NodeInv (KvApi.gtE flags) d.nodes)
+    (hd : KeysOn (KvApi.Valid flags) (flatten d.nodes)) (k : KvApi.EKey) (hk : KvApi.Valid flags k) (p : CPos) :
+    let r := curSeek (KvApi.gtE flags) d k false p
+    r.2 = (specGet (KvApi.gtE flags) (flatten d.nodes) k).isSome ∧
+    (∀ v, specGet (KvApi.gtE flags) (flatten d.nodes) k = some v → curRec d r.1 = some (k, v)) ∧
+    (specGet (KvApi.gtE flags) (flatten d.nodes) k = none → r.1 = clearSkip p) :=
+  seek_eq_spec_on (KvApi.gtE_strictTotalOn flags) d inv hd k hk p
+
+/-- GE seek under the store's comparator, any flags word -/
+theorem store_seek_ge (flags : Nat) (d : Db KvApi.EKey Bytes) (inv : NodeInv (KvApi.gtE flags) d.nodes)
+    (hd : KeysOn (KvApi.Valid flags) (flatten d.nodes)) (k : KvApi.EKey) (hk : KvApi.Valid flags k) (p : CPos) :
+    let r := curSeek (KvApi.gtE flags) d k true p
+    r.2 = (flatten d.nodes).any (fun x => !KvApi.gtE flags k x.1) ∧
+    (r.2 = true → curRec d r.1 = ((flatten d.nodes).filter (fun x => !KvApi.gtE flags k x.1)).getLast?) ∧
+    (r.2 = false → r.1 = clearSkip p) :=
+  seek_ge_spec_on (KvApi.gtE_strictTotalOn flags) d inv hd k hk p
+
+/-- writes through a cursor under the store's comparator, any flags word -/
+theorem store_cursor_write (flags : Nat) (d : Db KvApi.EKey Bytes) (inv : NodeInv (KvApi.gtE flags) d.nodes)
+    (hd : KeysOn (KvApi.Valid flags) (flatten d.nodes)) (p : CPos) (v : Bytes) {k : KvApi.EKey} {ov : Bytes}
+    (h : curRec d p = some (k, ov)) :
+    (flatten (curSet d p v).nodes = specPut (KvApi.gtE flags) (flatten d.nodes) k v ∧
+      NodeInv (KvApi.gtE flags) (curSet d p v).nodes ∧ curRec (curSet d p v) p = some (k, v)) ∧
+    (flatten (curDel d p).nodes = specDel (KvApi.gtE flags) (flatten d.nodes) k ∧
+      NodeInv (KvApi.gtE flags) (curDel d p).nodes) :=
+  cursor_write_spec_on (KvApi.gtE_strictTotalOn flags) d inv hd p v h
+
 /-! ### the hypotheses are satisfiable -/
 
 example : scan exDb (curNext exDb) 4 .head = ([some (9, "i"), some (7, "g"), some (4, "d")], true) :=
@@ -196,5 +342,29 @@ example : (curSeek (fun a b : Nat => decide (a > b)) exDb 5 true .head).2 = true
   have h := seek_ge_spec natGt_strictTotal exDb exDb_inv 5 .head
   refine ⟨by rw [h.1]; decide, ?_⟩
   rw [h.2.1 (by rw [h.1]; decide)]; decide
+
+/-- integer keys 5, 300, 7 stored in that order: the scan returns them in descending numeric order
+    (300 has a 2-byte vnum, so byte order would differ), whatever levels were drawn -/
+def exOpsVnum : List (Op KvApi.EKey Bytes) :=
+  [.put (Vnum.enc 5, 0) [1] 2, .put (Vnum.enc 300, 0) [2] 0, .put (Vnum.enc 7, 0) [3] 5, .del (Vnum.enc 9, 0)]
+
+theorem exOpsVnum_ok : OpsOn (KvApi.VnumKey false) exOpsVnum := by
+  intro op hop
+  simp only [exOpsVnum, List.mem_cons, List.not_mem_nil, or_false] at hop
+  rcases hop with rfl | rfl | rfl | rfl
+  · exact ⟨⟨5, by decide, rfl⟩, fun _ => rfl⟩
+  · exact ⟨⟨300, by decide, rfl⟩, fun _ => rfl⟩
+  · exact ⟨⟨7, by decide, rfl⟩, fun _ => rfl⟩
+  · exact ⟨⟨9, by decide, rfl⟩, fun _ => rfl⟩
+
+example : Desc (KvApi.gtE (KvApi.vnumFlags false)) (runSpec (KvApi.gtE (KvApi.vnumFlags false)) [] exOpsVnum).1 :=
+  (vnum_scan_next false exOpsVnum exOpsVnum_ok).2.2
+
+example : scan (runNode (KvApi.gtE 0) ⟨[], []⟩ [.put ([1], 0) [9] 0, .put ([1, 0], 0) [8] 1]).1
+    (curNext (runNode (KvApi.gtE 0) ⟨[], []⟩ [.put ([1], 0) [9] 0, .put ([1, 0], 0) [8] 1]).1) 3 .head
+    = ([some (([1, 0], 0), [8]), some (([1], 0), [9])], true) := by
+  have h := (plain_scan_next [.put ([1], 0) [9] 0, .put ([1, 0], 0) [8] 1]
+    (by simp [OpsOn, Op.key, KvApi.PlainKey])).1
+  exact h
 
 end IwModel.C02
